@@ -8,14 +8,17 @@ package main
 
 import (
 	"bufio"
+	"context"
 	"encoding/json"
 	"fmt"
 	"math/rand"
 	"os"
 	"reflect"
+	"regexp"
 	"sort"
 	"strconv"
 	"strings"
+	"time"
 	"unsafe"
 
 	"github.com/mattn/anko/env"
@@ -612,6 +615,8 @@ func main() {
 		}
 	case "law":
 		law(os.Args[2])
+	case "refs":
+		refs(os.Args[2])
 	case "ops", "opslast":
 		lastOnly := os.Args[1] == "opslast"
 		in, err := os.Open(os.Args[2])
@@ -655,7 +660,11 @@ func main() {
 func lawSetup() (*env.Env, error) {
 	e := env.NewEnv()
 	e.Define("harr", [3]int64{1, 2, 3})
+	e.Define("nm", map[string]int64(nil)) // nil containers of concrete types: a store that fails leaves them nil
+	e.Define("nl", []int64(nil))
 	_, err := vm.Execute(e, nil, `a = [1, 2, 3]
+tlm = make([]map[string]int64, 1)
+tll = make([][]int64, 1)
 ta = make([]int64, 3)
 ta[0] = 1
 ta[1] = 2
@@ -678,12 +687,13 @@ func fl() { return ll }
 	return e, err
 }
 
-const lawObs = "[a, ta, m, tm, s, st.A, st.B, st.L, b, tb, ll, tl, len(a), len(ta), len(b), len(tb), len(ll[0]), len(tl[0])]"
+const lawObs = "[a, ta, m, tm, s, st.A, st.B, st.L, b, tb, ll, tl, len(a), len(ta), len(b), len(tb), len(ll[0]), len(tl[0]), nm == nil, nl == nil, tlm[0] == nil, tll[0] == nil, len(nm), len(nl), len(tlm), len(tll)]"
 
 func law(out string) {
 	targets := []string{"a[0:1][1]", "a[0:2][2]", "fa()[1]", "(a[0:1])[1]", "a[0:1][0:1][1]", "ta[0:1][1]", "fta()[1]", "tb[2]", "b[2]", "b[5]", "a[-1]", "a[9]", "a[3]", "ta[3]", "ta[9]", "ta[0]", "a[\"x\"]", "ta[nil]",
 		"m[[1]]", "m[{}]", "m.l[5]", "m.l[2]", "fm().l[9]", "fm().z", "tm.k", "tm[1]", "tm[[1]]", "s[9]", "s[0]", "s[3]", "st.Nope", "st.A", "st.B", "st.L[5]", "st.L[2]", "st.L[0:1][1]", "ll[0][5]", "ll[5][0]", "ll[0][2]", "ll[1][1]",
-		"fl()[0][5]", "fl()[0][2]", "tl[0][9]", "tl[0][3]", "tl[0][0:1][1]", "tl[1]", "tl[0]", "harr[0]", "harr[5]", "*a", "a.x", "ta.x", "s.x", "a[0:1]", "ta[0:1]", "a[0][0]", "m.k.z", "nosuch[0]", "nosuch.x"}
+		"fl()[0][5]", "fl()[0][2]", "tl[0][9]", "tl[0][3]", "tl[0][0:1][1]", "tl[1]", "tl[0]", "harr[0]", "harr[5]", "*a", "a.x", "ta.x", "s.x", "a[0:1]", "ta[0:1]", "a[0][0]", "m.k.z", "nosuch[0]", "nosuch.x",
+		"nm.k", "nm[\"k\"]", "nm[[1]]", "nm[1]", "nm[nil]", "tlm[0].k", "tlm[0][\"k\"]", "tlm[0][[1]]", "tlm[0][2]", "tlm[1].k", "nl[0]", "nl[1]", "nl[-1]", "tll[0][0]", "tll[0][1]", "tll[1][0]", "nm.k.z", "tlm[0].k.z"}
 	values := []string{"9", "\"x\"", "nil", "[7]", "1.5", "{}", "true", "ta", "tb"}
 	ops := []string{"=", "+=", "-=", "*="}
 	var sum struct {
@@ -736,6 +746,105 @@ func law(out string) {
 						}
 					}
 				}
+			}
+		}
+	}
+	b, _ := json.Marshal(sum)
+	os.WriteFile(out, b, 0o644)
+}
+
+// ---------------------------------------------------------------- "slices and maps are reference values when assigned or passed"
+//
+// Every way a container can travel (assignment, parameter of a script function on the direct and the reflect path, spread into a variadic script or Go
+// function, Go function parameter, result, list element, map entry, channel, closure) hands over the container itself: a store made through the
+// far end is seen through the near end.  The expected outcome is what the same program does in Go on []interface{} / []int64 / map.
+
+func refs(out string) {
+	travel := map[string]string{
+		"assign":          "y = x\nSTORE(y)",
+		"param":           "func w(c) { STORE(c) }\nw(x)",
+		"param5":          "func w(c, p2, p3, p4, p5) { STORE(c) }\nw(x, 2, 3, 4, 5)",
+		"variadic-elem":   "func w(cs...) { STORE(cs[0]) }\nw(x)",
+		"anon":            "(func(c) { STORE(c) })(x)",
+		"result":          "func g() { return x }\nSTORE(g())",
+		"list-elem":       "l = [x]\nSTORE(l[0])",
+		"map-entry":       "mm = {\"e\": x}\nSTORE(mm.e)",
+		"channel":         "cc = make(chan interface, 1)\ncc <- x\ny = <-cc\nSTORE(y)",
+		"closure":         "f = func() { STORE(x) }\nf()",
+		"go-identity":     "STORE(gid(x))",
+		"go-param":        "GOSTORE",
+		"defer":           "func w(c) { STORE(c) }\nfunc d() { defer w(x) }\nd()",
+		"goroutine":       "dd = make(chan int64)\ngo func(c) { STORE(c); dd <- 1 }(x)\n<-dd",
+		"spread-variadic": "SPREAD",
+	}
+	kinds := map[string][3]string{ // setup, store through the far end (STORE(c)), observation
+		"list":  {"x = [1, 2, 3]", "%s[0] = 9", "[x[0], len(x)]"},
+		"typed": {"x = make([]int64, 3)\nx[0] = 1", "%s[0] = 9", "[x[0], len(x)]"},
+		"map":   {"x = {\"k\": 1}", "%s.k = 9", "[x.k, len(x)]"},
+		"tmap":  {"x = make(map[string]int64)\nx.k = 1", "%s[\"k\"] = 9", "[x.k, len(x)]"},
+		"view":  {"base = [1, 2, 3]\nx = base[0:2]", "%s[0] = 9", "[base[0], x[0], len(x)]"},
+	}
+	want := map[string][]interface{}{"list": {int64(9), int64(3)}, "typed": {int64(9), int64(3)}, "map": {int64(9), int64(1)}, "tmap": {int64(9), int64(1)}, "view": {int64(9), int64(9), int64(2)}}
+	var sum struct {
+		Cases      int           `json:"cases"`
+		NMismatch  int           `json:"n_mismatch"`
+		Mismatches []interface{} `json:"mismatches"`
+	}
+	re := regexp.MustCompile(`STORE\(([^()]*(\([^()]*\))?[^()]*)\)`)
+	for tn, tsrc := range travel {
+		for kn, k := range kinds {
+			body := tsrc
+			switch body {
+			case "GOSTORE":
+				if kn == "map" || kn == "tmap" {
+					body = "gsetk(x)"
+				} else {
+					body = "gset0(x)"
+				}
+			case "SPREAD":
+				if kn == "map" || kn == "tmap" {
+					continue
+				}
+				// the spread list IS the variadic parameter: for a script function, a Go function over interface{} and a Go function over int64
+				body = "func w(cs...) { cs[0] = 9 }\nw(x...)"
+				if kn == "typed" {
+					body = "gsetv64(x...)"
+				}
+			default:
+				body = re.ReplaceAllStringFunc(body, func(m string) string { return fmt.Sprintf(k[1], re.FindStringSubmatch(m)[1]) })
+			}
+			src := k[0] + "\n" + body + "\n" + k[2]
+			e := env.NewEnv()
+			e.Define("gid", func(v interface{}) interface{} { return v })
+			e.Define("gset0", func(v interface{}) {
+				rv := reflect.ValueOf(v)
+				rv.Index(0).Set(reflect.ValueOf(int64(9)).Convert(rv.Type().Elem()))
+			})
+			e.Define("gsetk", func(v interface{}) {
+				rv := reflect.ValueOf(v)
+				rv.SetMapIndex(reflect.ValueOf("k").Convert(rv.Type().Key()), reflect.ValueOf(int64(9)).Convert(rv.Type().Elem()))
+			})
+			e.Define("gsetv64", func(xs ...int64) { xs[0] = 9 })
+			var got interface{}
+			var err error
+			func() {
+				defer func() {
+					if r := recover(); r != nil {
+						err = fmt.Errorf("PANIC %v", r)
+					}
+				}()
+				ctx, cancel := context.WithTimeout(context.Background(), 5*time.Second)
+				defer cancel()
+				got, err = vm.ExecuteContext(ctx, e, nil, src)
+			}()
+			sum.Cases++
+			if err != nil || fmt.Sprint(got) != fmt.Sprint(want[kn]) {
+				sum.NMismatch++
+				g := fmt.Sprint(got)
+				if err != nil {
+					g = "error: " + err.Error()
+				}
+				sum.Mismatches = append(sum.Mismatches, map[string]interface{}{"travel": tn, "kind": kn, "src": src, "want": fmt.Sprint(want[kn]), "got": g})
 			}
 		}
 	}
